@@ -55,11 +55,12 @@ def option_source(draw, allow_sumfact):
             elif k == "sum_factorization":
                 out[k] = draw(st.booleans())
             elif k == "verbosity":
-                out[k] = draw(st.sampled_from([30, 40, 50]))
+                out[k] = draw(st.sampled_from([30, 40, 50, 0]))
             elif k == "epsilon":
-                out[k] = draw(st.sampled_from([1e-14, 1e-12]))
+                out[k] = draw(st.sampled_from([1e-14, 1e-12, 0.0]))
             else:
-                out[k] = draw(st.sampled_from([1e-3, 1e-6, 1e-9, 1e-12]))
+                # 0 is a legitimate setting (no clamping / exact comparison) and is falsy in Python
+                out[k] = draw(st.sampled_from([1e-3, 1e-6, 1e-9, 1e-12, 0.0]))
     return out
 
 
